@@ -27,6 +27,51 @@ theorem best_max_int (l : List (Cand Int)) (b : Cand Int) (h : bestOf (fun a b =
   have := bestOf_max (fun a b : Int => decide (a < b)) (by intro a; simp) (by intro a b c h1 h2; simp at *; omega) l b h x hx
   simpa using this
 
+/-- **which** best-scoring candidate: the stable sort by score followed by `[-1]` returns the *last* maximum of the stream — everything
+streamed after the returned candidate scores strictly lower, everything before it scores at most as high. The returned parse is
+therefore determined by the stream alone (no dependence on anything but order and scores among equally good candidates). -/
+theorem best_tie_last_int (l : List (Cand Int)) (b : Cand Int) (h : bestOf (fun a b => decide (a < b)) l = some b) :
+    ∃ pre post, l = pre ++ b :: post ∧ (∀ x ∈ post, x.score < b.score) ∧ ∀ x ∈ pre, x.score ≤ b.score := by
+  induction l generalizing b with
+  | nil => simp [bestOf] at h
+  | cons c cs ih =>
+    unfold bestOf at h
+    cases hb : bestOf (fun a b : Int => decide (a < b)) cs with
+    | none =>
+      rw [hb] at h; cases h
+      have : cs = [] := (bestOf_none_iff _ cs).1 hb
+      subst this
+      exact ⟨[], [], rfl, by simp, by simp⟩
+    | some b' =>
+      rw [hb] at h
+      obtain ⟨pre, post, hl, hpost, hpre⟩ := ih b' hb
+      by_cases hlt : b'.score < c.score
+      · simp [hlt] at h; subst h
+        refine ⟨[], cs, rfl, ?_, by simp⟩
+        intro x hx
+        rw [hl] at hx
+        rcases List.mem_append.1 hx with hx | hx
+        · have := hpre x hx; omega
+        · rcases List.mem_cons.1 hx with hx | hx
+          · subst hx; exact hlt
+          · have := hpost x hx; omega
+      · simp [hlt] at h; subst h
+        refine ⟨c :: pre, post, by simp [hl], hpost, ?_⟩
+        intro x hx
+        rcases List.mem_cons.1 hx with hx | hx
+        · subst hx; omega
+        · exact hpre x hx
+
+/-- the returned candidate is unique: two runs over the same stream return the same candidate (function), and a stream whose
+maximum is attained once returns exactly that candidate wherever it stands -/
+theorem best_unique_max_int (l : List (Cand Int)) (b m : Cand Int) (h : bestOf (fun a b => decide (a < b)) l = some b)
+    (hm : m ∈ l) (hmax : ∀ x ∈ l, x ≠ m → x.score < m.score) : b = m := by
+  by_cases hbm : b = m
+  · exact hbm
+  · have h1 := hmax b (bestOf_mem _ l b h) hbm
+    have h2 := best_max_int l b h m hm
+    omega
+
 /-- the returned candidate is one element of the stream: its resolution, trace and score belong together -/
 theorem best_same_fields (lt : S → S → Bool) (l : List (Cand S)) (b : Cand S) (h : bestOf lt l = some b) :
     ∃ c ∈ l, c.res = b.res ∧ c.trace = b.trace ∧ c.score = b.score := ⟨b, bestOf_mem lt l b h, rfl, rfl, rfl⟩
